@@ -59,23 +59,32 @@ St0 == [wq |-> <<>>, started |-> FALSE, sentpay |-> <<>>, paynext |-> <<0, 0>>,
         wstart |-> 0, wend |-> 0, wendMark |-> 0, cHigh |-> 0, wendAtReady |-> 0, lastWakeStart |-> -1, lastWakerRead |-> -1,
         lastWinchRaise |-> -1, lastWinchSeen |-> -1, termsig |-> FALSE,
         pin |-> <<>>, evq |-> <<>>, popped |-> [k |-> "none", id |-> 0], inpoll |-> FALSE, sel |-> NoSel,
+        esc |-> FALSE, live |-> FALSE, sizeOut |-> 0, lastSizeAns |-> -1, expectW |-> FALSE,
         disposed |-> FALSE, restored |-> FALSE, sawCursor |-> FALSE, sawMouse |-> FALSE, err |-> ""]
 Fail(st, why) == [st EXCEPT !.err = why]
 
 \* events produced by reading n bytes of the tty input FIFO (tags: <<"k", id>> one key byte,
-\* <<"d", i>> i-th byte of a 7-byte DA1 reply)
-RECURSIVE ReadEvents(_, _)
-ReadEvents(p, n) ==
+\* <<"d", i>> i-th byte of a 7-byte DA1 reply, <<"z", i, n, sz>> i-th byte of an n-byte size report).
+\* In escape-sequence size mode (esc) a size report is a window change: Resize is queued in front of the report itself.
+RECURSIVE ReadEvents(_, _, _)
+ReadEvents(p, n, esc) ==
   IF n = 0 THEN <<>>
   ELSE (IF p[1][1] = "k" THEN <<[k |-> "key", id |-> p[1][2]]>>
-        ELSE IF p[1][2] = 7 THEN <<[k |-> "other", id |-> 0]>> ELSE <<>>) \o ReadEvents(Tail(p), n - 1)
+        ELSE IF p[1][1] = "z" THEN (IF p[1][2] # p[1][3] THEN <<>>
+                                    ELSE IF esc THEN <<[k |-> "resize", id |-> p[1][4]], [k |-> "other", id |-> 0]>>
+                                    ELSE <<[k |-> "other", id |-> 0]>>)
+        ELSE IF p[1][2] = 7 THEN <<[k |-> "other", id |-> 0]>> ELSE <<>>) \o ReadEvents(Tail(p), n - 1, esc)
+\* number of size reports completed within the first n bytes of the input FIFO
+RECURSIVE Reports(_, _)
+Reports(p, n) == IF n = 0 THEN 0 ELSE (IF p[1][1] = "z" /\ p[1][2] = p[1][3] THEN 1 ELSE 0) + Reports(Tail(p), n - 1)
 Drop2(p, n) == SubSeq(p, n + 1, Len(p))
 
 Apply(st, e, seq) ==
   CASE e.ev = "app_write" -> [st EXCEPT !.paynext = <<e.v, e.n>>]
     [] e.ev = "queue_write" ->
          LET pn == IF st.paynext[2] < e.n THEN st.paynext[2] ELSE e.n IN
-         [st EXCEPT !.wq = QWrite(QWrite(@, st.paynext[1], pn), 0, e.n - pn), !.written = @ + e.n,
+         IF st.expectW /\ e.n # 10 THEN Fail(st, "a size request was due (window-size signal, or frames dropped with a request outstanding) but something else was queued") ELSE
+         [st EXCEPT !.expectW = FALSE, !.wq = QWrite(QWrite(@, st.paynext[1], pn), 0, e.n - pn), !.written = @ + e.n,
                     !.paynext = <<st.paynext[1], st.paynext[2] - pn>>]
     [] e.ev = "queue_flush" -> [st EXCEPT !.wq = QFlush(@)]
     [] e.ev = "frames_drop" ->
@@ -83,9 +92,14 @@ Apply(st, e, seq) ==
          ELSE LET q == IF Len(st.wq) > 1 THEN <<st.wq[1]>> ELSE st.wq IN
               IF e.after # Len(q) THEN Fail(st, "frames_drop: dropped something else than the whole chunks behind the front one")
               ELSE IF e.len # QLen(q, 1) THEN Fail(st, "frames_drop: reported length differs from readable bytes")
-              ELSE [st EXCEPT !.wq = q, !.dropped = @ + (QLen(st.wq, 1) - QLen(q, 1))]
+              \* escape-sequence size mode: a size request that is still unanswered may have been in a dropped chunk,
+              \* the library asks again (otherwise the window change would never be reported)
+              ELSE [st EXCEPT !.wq = q, !.dropped = @ + (QLen(st.wq, 1) - QLen(q, 1)),
+                              !.expectW = (st.esc /\ st.sizeOut > 0 /\ Len(q) < Len(st.wq)),
+                              !.sizeOut = IF st.esc /\ st.sizeOut > 0 /\ Len(q) < Len(st.wq) THEN 1 ELSE @]
     [] e.ev = "poll_enter" ->
-         IF Len(st.wq) # e.chunks THEN Fail(st, "poll_enter: chunk count differs from model")
+         IF st.expectW THEN Fail(st, "frames were dropped with a size request outstanding and the request was not queued again")
+         ELSE IF Len(st.wq) # e.chunks THEN Fail(st, "poll_enter: chunk count differs from model")
          ELSE IF Len(st.evq) # e.evq THEN Fail(st, "poll_enter: event queue length differs from model")
          ELSE [st EXCEPT !.inpoll = TRUE, !.wendMark = st.wend]
     [] e.ev = "select" ->
@@ -109,6 +123,9 @@ Apply(st, e, seq) ==
               ELSE [s1 EXCEPT !.kout = @ + e.written - st.debt, !.debt = 0, !.inflight = 0]
     [] e.ev = "signal" ->
          IF ~st.sel.s THEN Fail(st, "signal processed without the signal pipe being readable")
+         \* escape-sequence size mode: the signal makes the library ask the terminal (10 bytes: CSI 18 t CSI 14 t);
+         \* the Resize event follows the terminal's answer
+         ELSE IF e.sig = 28 /\ st.esc THEN [st EXCEPT !.sizeOut = @ + 1, !.expectW = TRUE, !.lastWinchSeen = seq]
          ELSE IF e.sig = 28 THEN [st EXCEPT !.evq = Append(@, [k |-> "resize", id |-> 0]), !.lastWinchSeen = seq]
          ELSE IF e.sig \in {15, 2, 3} THEN [st EXCEPT !.termsig = TRUE]
          ELSE st
@@ -123,9 +140,12 @@ Apply(st, e, seq) ==
     [] e.ev = "tty_read" ->
          IF e.n > Len(st.pin) THEN Fail(st, "tty read: more than was sent")
          ELSE IF e.n = 0 THEN st
-         ELSE [st EXCEPT !.evq = @ \o ReadEvents(st.pin, e.n), !.pin = Drop2(@, e.n)]
+         ELSE [st EXCEPT !.evq = @ \o ReadEvents(st.pin, e.n, st.esc), !.pin = Drop2(@, e.n),
+                         !.sizeOut = IF st.esc THEN (IF @ > Reports(st.pin, e.n) THEN @ - Reports(st.pin, e.n) ELSE 0) ELSE @]
     [] e.ev = "loop_end" ->
-         IF e.evq # Len(st.evq) THEN Fail(st, "event queue length differs from model at end of loop iteration") ELSE [st EXCEPT !.wendMark = st.wend]
+         IF e.evq # Len(st.evq) THEN Fail(st, "event queue length differs from model at end of loop iteration")
+         ELSE IF st.expectW THEN Fail(st, "window-size signal in escape-sequence size mode did not queue a size request")
+         ELSE [st EXCEPT !.wendMark = st.wend]
     [] e.ev = "poll_exit" ->
          \* the event is popped here; the harness's poll_ret is cross-checked against it
          IF e.chunks # Len(st.wq) THEN Fail(st, "poll_exit: chunk count differs from model")
@@ -136,13 +156,14 @@ Apply(st, e, seq) ==
     [] e.ev = "poll_ret" ->
          IF e.kind = "quit" THEN (IF ~st.termsig /\ ~e.eof THEN Fail(st, "poll returned Quit without a termination signal") ELSE [st EXCEPT !.termsig = FALSE, !.inpoll = FALSE])
          ELSE IF st.termsig THEN Fail(st, "termination signal did not surface as Quit")
-         ELSE IF e.kind # st.popped.k \/ (e.kind = "key" /\ e.id # st.popped.id) THEN Fail(st, "poll returned a different event than the one at the head of the queue")
+         ELSE IF e.kind # st.popped.k \/ (e.kind = "key" /\ e.id # st.popped.id) \/ (e.kind = "resize" /\ st.popped.id # 0 /\ e.id # st.popped.id) THEN Fail(st, "poll returned a different event than the one at the head of the queue")
          ELSE st
     [] e.ev = "wake_start" -> [st EXCEPT !.wstart = @ + 1, !.lastWakeStart = seq]
     [] e.ev = "wake_end" -> [st EXCEPT !.wend = @ + 1]
     [] e.ev = "sig_raise" -> IF e.sig = 28 THEN [st EXCEPT !.lastWinchRaise = seq] ELSE st
     [] e.ev = "peer_send" ->
-         [st EXCEPT !.pin = @ \o (IF e.kind = "key" THEN <<<<"k", e.id>>>> ELSE [i \in 1..7 |-> <<"d", i>>])]
+         IF e.kind = "size" THEN [st EXCEPT !.pin = @ \o [i \in 1..e.n |-> <<"z", i, e.n, e.id>>], !.lastSizeAns = seq]
+         ELSE [st EXCEPT !.pin = @ \o (IF e.kind = "key" THEN <<<<"k", e.id>>>> ELSE [i \in 1..7 |-> <<"d", i>>])]
     [] e.ev = "peer_recv" ->
          \* bytes of a write call that is still in flight may already be visible to the peer;
          \* once the line settings are restored the kernel echoes the peer's own input back
@@ -158,6 +179,8 @@ Apply(st, e, seq) ==
          IF st.lastWakeStart >= 0 /\ st.lastWakerRead < st.lastWakeStart THEN Fail(st, "a wake request was never followed by a waker read")
          ELSE IF st.evq # <<>> THEN Fail(st, "queued events were never delivered")
          ELSE IF st.lastWinchRaise >= 0 /\ st.lastWinchSeen < st.lastWinchRaise THEN Fail(st, "a window-size signal was never processed")
+         \* escape-sequence size mode: the terminal was asked, and answered, after the last window-size signal was seen
+         ELSE IF st.esc /\ st.lastWinchSeen >= 0 /\ st.lastSizeAns < st.lastWinchSeen THEN Fail(st, "no size report followed the last window-size signal: the size request never reached the terminal")
          ELSE IF st.pin # <<>> THEN Fail(st, "input bytes were never read")
          ELSE st
     [] e.ev = "dispose_enter" -> [st EXCEPT !.disposed = TRUE]
@@ -171,7 +194,8 @@ Apply(st, e, seq) ==
          ELSE IF ~e.termios_equal THEN Fail(st, "line settings after release differ from those found at open")
          ELSE IF ~(st.sawCursor /\ st.sawMouse) THEN Fail(st, "closing sequence (cursor on, mouse reporting off) did not reach the peer")
          ELSE st
-    [] e.ev \in {"session_start", "note"} -> st
+    [] e.ev = "session_start" -> [st EXCEPT !.esc = e.esc, !.live = TRUE]
+    [] e.ev = "note" -> st
     [] OTHER -> Fail(st, "unknown event")
 
 \* conservation after every step: everything written is queued, in the kernel, on the wire, or was dropped whole
